@@ -32,6 +32,7 @@ type c11Invocation struct {
 
 type c11World struct {
 	r       *ev.Run
+	prop    string
 	st      *Stack
 	caseID  string
 	led     *ledger
@@ -66,7 +67,7 @@ func (w *c11World) viol(sig, desc string, d map[string]any) {
 		d = map[string]any{}
 	}
 	d["stack"] = w.st.Name
-	w.r.Violate("C11/"+sig+"/"+w.st.Name, w.caseID, desc, d)
+	w.r.Violate(w.prop+"/"+sig+"/"+w.st.Name, w.caseID, desc, d)
 }
 
 func respLenFor(seq uint32, mtu int) int {
@@ -165,8 +166,8 @@ type c11Cfg struct {
 	closeDst   bool // close server 1 at a random point
 }
 
-func c11Run(r *ev.Run, st *Stack, g *rng.R, caseID string, cfg c11Cfg) {
-	w := &c11World{r: r, st: st, caseID: caseID, led: newLedger(), secret: g.Bytes(16), invs: map[uint32][]c11Invocation{}, begun: map[uint32]bool{}}
+func c11Run(r *ev.Run, st *Stack, g *rng.R, caseID string, cfg c11Cfg, prop string, judgePrompt bool) {
+	w := &c11World{r: r, st: st, caseID: caseID, prop: prop, led: newLedger(), secret: g.Bytes(16), invs: map[uint32][]c11Invocation{}, begun: map[uint32]bool{}}
 	n := len(st.Nodes)
 	mtu := st.Nodes[0].MTU()
 	sctx, scancel := context.WithCancel(context.Background())
@@ -367,7 +368,7 @@ func c11Run(r *ev.Run, st *Stack, g *rng.R, caseID string, cfg c11Cfg) {
 		}
 		w.mu.Unlock()
 		pmu.Unlock()
-		if judged > 0 {
+		if judged > 0 && judgePrompt {
 			w.viol("ask-blocked-after-context-ended", fmt.Sprintf("%d Ask calls whose context has ended (and for which no handler invocation ever began) are parked inside the library", judged), map[string]any{"stacks": stacks})
 		} else {
 			r.Inconclusive("c11 askers still waiting (live context or running handler) on " + st.Name)
@@ -444,7 +445,7 @@ func runC11(r *ev.Run) {
 			if sf.Heavy {
 				cfg.perAsker = pick(r, 10, 30)
 			}
-			c11Run(r, st, cg, caseID, cfg)
+			c11Run(r, st, cg, caseID, cfg, "C11", true)
 			if rep == 0 {
 				r.Sample(map[string]any{"stack": st.Name, "askers": cfg.askers, "serve_loops": cfg.serveLoops, "close_destination": cfg.closeDst, "mtu": st.Nodes[0].MTU()})
 			}
